@@ -460,11 +460,15 @@ def run_check(module_name, tier, seed, workers=None, only_parts=None,
     exhaustive_parts = []
     part_evals = {}
 
-    # 1. committed regression cases (seconds)
+    # 1. committed regression cases (seconds).  They run in a forked child
+    # like every other task: the parent process never executes library code
+    # (a library that compiles something lazily - numba - in the parent would
+    # hand half-initialised compiler state to the forked workers)
     regress = load_regress_cases(prop)
-    for fn, case in regress:
-        run_case(module, case, total, dict(part=case.get("part"),
-                                           kind="regress", file=fn))
+    if regress:
+        ctx_ = multiprocessing.get_context("fork")
+        with ctx_.Pool(1) as pool_:
+            total.merge(pool_.apply(_regress_child, (module_name, regress)))
     total.extra["regress_cases"] += len(regress)
 
     # 2. tasks
@@ -573,6 +577,16 @@ def run_check(module_name, tier, seed, workers=None, only_parts=None,
     if new:
         return EXIT_VIOLATION
     return EXIT_OK
+
+
+def _regress_child(module_name, regress):
+    setup_repo_path()
+    module = importlib.import_module(module_name)
+    res = ShardResult()
+    for fn, case in regress:
+        run_case(module, case, res, dict(part=case.get("part"),
+                                         kind="regress", file=fn))
+    return res
 
 
 def _run_tasks(tasks, workers):
